@@ -17,10 +17,8 @@ from pyvc.state import alloc_list
 
 MSOL = "cobra/core/solution.py"
 REG.records = getattr(REG, "records", set()) | {"Series", "Solution"}
-revid = z3.Function("reverse_id", Ref, Id)
-REG.add(Contract("cobra/core/reaction.py", "Reaction.reverse_id@getter", "C04", [("self", TRef("Reaction"))],
-                 [Case("any", ensures=lambda E: E.res.t == revid(E["self"].t))], assumed=True, key="Reaction.reverse_id@getter",
-                 result="id", note="reverse_id = id + '_reverse_' + md5 prefix: a function of the reaction"))
+from . import c01_lp as C1  # noqa  (Reaction.reverse_id@getter: PROVED there; reverse id = reverse_id_of(current id))
+REVID = C1.REVID
 REG.classes.setdefault("Metabolite", ["Object"])
 REG.classes["Metabolite"] = ["Object"]
 
@@ -87,8 +85,8 @@ def _pre(E):
     sd_, _ = dct(E, "shadow_prices")
     j = qv("gj")
     return z3.And(n >= 0, m >= 0,
-                  FA([j], z3.Implies(z3.And(0 <= j, j < n), z3.And(z3.Select(pd_, idA[e[j]]), z3.Select(pd_, revid(e[j])),
-                                                                  z3.Select(rd_, idA[e[j]]), z3.Select(rd_, revid(e[j])))), patterns=[e[j]]),
+                  FA([j], z3.Implies(z3.And(0 <= j, j < n), z3.And(z3.Select(pd_, idA[e[j]]), z3.Select(pd_, REVID(idA[e[j]])),
+                                                                  z3.Select(rd_, idA[e[j]]), z3.Select(rd_, REVID(idA[e[j]])))), patterns=[e[j]]),
                   FA([j], z3.Implies(z3.And(0 <= j, j < m), z3.Select(sd_, idA[me[j]])), patterns=[me[j]]))
 
 
@@ -108,7 +106,7 @@ def _flux_rows(E, st, flux, red, idx, upto, integer):
     j = qv("fj")
     if st.objs[idx.oid]["ekind"] != "id":     # still the untyped empty list literal
         return z3.And(fn == n, rn == n, xn == upto, upto == 0)
-    row = z3.And(fe[j] == P[idA[e[j]]] - P[revid(e[j])], xe[j] == idA[e[j]])
+    row = z3.And(fe[j] == P[idA[e[j]]] - P[REVID(idA[e[j]])], xe[j] == idA[e[j]])
     if integer is False:
         row = z3.And(row, re_[j] == D[idA[e[j]]])     # the dual of the forward variable = c_r - sum_m S_mr pi_m (statement)
     return z3.And(fn == n, rn == n, xn == upto, FA([j], z3.Implies(z3.And(0 <= j, j < upto), row), patterns=[fe[j]]))
